@@ -9,6 +9,7 @@ import (
 	"math/rand"
 	"strings"
 	"sync"
+	"time"
 
 	"github.com/ethereum/go-ethereum/common"
 	"github.com/ethereum/go-ethereum/core/types/bal"
@@ -141,8 +142,13 @@ func (p *peer) choose(msg string, hostileKinds []string) string {
 	return "honest"
 }
 
-// flushStale delivers the responses this peer withheld earlier.
+// flushStale delivers the responses this peer withheld earlier. It also adds a little
+// random latency so that responses of different peers overtake each other (schedule
+// variety only; no verdict depends on it).
 func (p *peer) flushStale() {
+	if p.intn(4) == 0 {
+		time.Sleep(time.Duration(p.intn(3000)) * time.Microsecond)
+	}
 	p.mu.Lock()
 	st := p.stale
 	p.stale = nil
